@@ -15,7 +15,7 @@ import (
 
 func init() { subcmds["race"] = cmdRace }
 
-// cmdRace (built with -race): cases {id, src, input, g, shared, reps, gomaxprocs, parsedonly}.
+// cmdRace (built with -race): cases {id, src, input, mode (aliasing mode of buildInput: plain/spare/shared/slices), g, shared, reps, gomaxprocs, parsedonly}.
 // One compiled Code (or one parsed Query run through Query.Run) is run from g goroutines released by a barrier,
 // on one shared input object or on distinct copies, reps times; every goroutine's output digests are compared
 // with the solo run. A marker line "VH-CASE <id>" is written to stderr before each case so that the race
@@ -48,7 +48,8 @@ func cmdRace(args []string) error {
 		}
 		shared := c["shared"] == true
 		parsedOnly := c["parsedonly"] == true
-		mk := func() any { return vlib.DecVal(c["input"], vlib.RepNative) }
+		mode, _ := c["mode"].(string)
+		mk := func() any { return buildInput(c["input"], mode) }
 		runOne := func(v any) (ds []string) {
 			defer func() {
 				if e := recover(); e != nil {
